@@ -21,6 +21,30 @@ import (
 	"golang.org/x/tools/go/ssa/ssautil"
 )
 
+// Anchor describes an unexported function the rules refer to by its canonical (pinned-tree) name, together with
+// a semantic finder used when a function of that name no longer exists (renamed): rules keep working and
+// obligation keys stay stable.
+type Anchor struct {
+	Canon string // f.String() on the pinned tree
+	Find  func(p *Prog) *ssa.Function
+}
+
+// Anchors is filled by the rules package.
+var Anchors []Anchor
+
+// aliasOf maps a renamed function to the canonical name of the anchor it implements (set by Load).
+var aliasOf = map[*ssa.Function]string{}
+var canonFn = map[string]*ssa.Function{}
+
+// Renamed reports the anchors that were resolved semantically in the last load.
+func Renamed() map[string]string {
+	out := map[string]string{}
+	for f, c := range aliasOf {
+		out[c] = f.String()
+	}
+	return out
+}
+
 // Module is the import path prefix of the analysed repository.
 const Module = "github.com/whawty/auth"
 
@@ -147,6 +171,28 @@ func Load(cfg Config) (*Prog, error) {
 		}
 	}
 	sort.Slice(p.RepoFns, func(i, j int) bool { return p.RepoFns[i].String() < p.RepoFns[j].String() })
+	// resolve anchors
+	aliasOf = map[*ssa.Function]string{}
+	canonFn = map[string]*ssa.Function{}
+	byName := map[string]*ssa.Function{}
+	for _, f := range p.RepoFns {
+		byName[f.String()] = f
+	}
+	for _, a := range Anchors {
+		if f, ok := byName[a.Canon]; ok {
+			canonFn[a.Canon] = f
+			continue
+		}
+		if a.Find == nil {
+			continue
+		}
+		if f := a.Find(p); f != nil {
+			if _, taken := aliasOf[f]; !taken {
+				aliasOf[f] = a.Canon
+				canonFn[a.Canon] = f
+			}
+		}
+	}
 	return p, nil
 }
 
@@ -199,11 +245,31 @@ func (p *Prog) Func(rel, name string) *ssa.Function {
 	if sp == nil {
 		return nil
 	}
+	if f := sp.Func(name); f != nil {
+		if _, isAlias := aliasOf[f]; !isAlias {
+			return f
+		}
+	}
+	if f := canonFn[Module+rel+"."+name]; f != nil {
+		return f
+	}
 	return sp.Func(name)
 }
 
 // Method finds the method `name` on named type `typ` (pointer or value receiver).
 func (p *Prog) Method(rel, typ, name string) *ssa.Function {
+	if f := p.method(rel, typ, name); f != nil {
+		return f
+	}
+	for _, c := range []string{"(*" + Module + rel + "." + typ + ")." + name, "(" + Module + rel + "." + typ + ")." + name} {
+		if f := canonFn[c]; f != nil {
+			return f
+		}
+	}
+	return nil
+}
+
+func (p *Prog) method(rel, typ, name string) *ssa.Function {
 	sp := p.SSAPkg(rel)
 	if sp == nil {
 		return nil
@@ -278,6 +344,14 @@ func FnName(f *ssa.Function) string {
 		return "<nil>"
 	}
 	s := f.String()
+	if c, ok := aliasOf[f]; ok {
+		s = c
+	} else if par := f.Parent(); par != nil {
+		// closures of a renamed function keep the canonical prefix
+		if c, ok := aliasOf[par]; ok {
+			s = c + strings.TrimPrefix(s, par.String())
+		}
+	}
 	s = strings.ReplaceAll(s, Module+"/cmd/whawty-auth", "main")
 	s = strings.ReplaceAll(s, Module+"/", "")
 	s = strings.ReplaceAll(s, "command-line-arguments", "main")
@@ -311,6 +385,9 @@ func CalleeName(c ssa.CallInstruction) string {
 	if f := cc.StaticCallee(); f != nil {
 		if f.Origin() != nil {
 			f = f.Origin()
+		}
+		if c, ok := aliasOf[f]; ok {
+			return c
 		}
 		return f.String()
 	}
